@@ -1,7 +1,7 @@
 (* The case language: instructions over a pool of objects of the three representations,
    interpreted by the faithful model and, side by side, by the specification. *)
 From BBF Require Import Base.Prelude Base.Names Base.Bits Spec.Sem
-     Model.Expr Model.Table Model.LibBdd Model.Bdd Model.Lexer Model.Parser Model.Display.
+     Model.Expr Model.Table Model.LibBdd Model.Bdd Model.Lexer Model.Parser Model.Display Model.Render Model.Csv.
 
 Inductive obj : Type := OE (e : expr) | OT (t : table) | OB (b : bdd).
 
@@ -28,7 +28,8 @@ Inductive instr : Type :=
 | INary (cj : bool) (rs : list nat)
 | IBinary (cj : bool) (r1 r2 : nat)
 | INegate (r : nat)
-| IParse (s : list N).
+| IParse (s : list N)
+| ICsvIn (file : bool) (s : list N).
 
 Definition debug_build := true.   (* the harness is built with debug assertions *)
 
@@ -268,6 +269,9 @@ Definition exec (p : pool) (i : instr) : Res entry :=
           end
       | _, _ => na
       end
+  | ICsvIn file s =>
+      t <- (if file then from_csv_file s else from_csv_string s) ;;
+      Ok {| e_obj := OT t; e_spec := {| ins := t_inputs t; fn := tsem t |}; e_opaque := false |}
   | IParse s =>
       e <- from_str s ;;
       Ok {| e_obj := OE e; e_spec := {| ins := literals e; fn := fun v => sem v e |}; e_opaque := false |}
